@@ -66,7 +66,11 @@ type zzInformer struct {
 	regs []*zzReg
 	next *int
 	t    *zzInformers
+	// stopped: the informer was removed from the cache; it delivers nothing any more
+	stopped bool
 }
+
+func (i *zzInformer) IsStopped() bool { return i.stopped }
 
 func (i *zzInformer) AddEventHandler(kcache.ResourceEventHandler) (kcache.ResourceEventHandlerRegistration, error) {
 	*i.next++
@@ -124,6 +128,7 @@ func (t *zzInformers) GetInformer(_ context.Context, obj client.Object, _ ...cac
 
 func (t *zzInformers) RemoveInformer(_ context.Context, obj client.Object) error {
 	if k := t.find(zzGVKOf(obj)); k >= 0 {
+		t.infs[k].stopped = true
 		t.infs = append(t.infs[:k:k], t.infs[k+1:]...)
 	}
 	return nil
